@@ -847,7 +847,7 @@ fn interpret_envelope(
             lane_uri,
             body,
         } => {
-            let unlinked_body = if body.is_empty() { Some(*body) } else { None };
+            let unlinked_body = if body.is_empty() { None } else { Some(*body) };
             Some(Either::Right(ResponseMessage::unlinked(
                 id,
                 RelativeAddress::new(node_uri, lane_uri),
